@@ -345,6 +345,11 @@ constexpr void change_to_default_attribute(
         detail::change_attribute(last_element->attribute_, {}, beh, wc);
         last_element->attribute_ = {};
     }
+    else
+    {
+        detail::default_attribute(beh, wc);
+        last_element = element{};
+    }
 }
 
 }  // namespace terminalpp::detail
